@@ -114,6 +114,27 @@ fn c14_timeout_is_clamped_triple_rtt() {
     kani::cover!(want == max_s * 1000 && triple > want);
 }
 
+/// C14: for *every* configured maximum (also below the 500 ms floor) and every measured round
+/// trip, computing the next timeout never panics and the result stays within the configured
+/// bound: min(500 ms, max) <= timeout <= max.
+#[kani::proof]
+#[kani::unwind(12)]
+fn c14_timeout_total_for_any_max() {
+    let max_ms: u32 = kani::any();
+    let mut t = PingTracker::new(Duration::from_millis(max_ms as u64));
+    let rtt_ms: u32 = kani::any();
+    kani::assume(rtt_ms <= 200_000);
+    if kani::any() {
+        t.last_rtt = Some(Duration::from_millis(rtt_ms as u64));
+    }
+    let got = t.ping_timeout().as_millis() as u64;
+    let max = max_ms as u64;
+    assert!(got <= max);
+    assert!(got >= if max < 500 { max } else { 500 } || t.last_rtt.is_none());
+    kani::cover!(max_ms < 500 && t.last_rtt.is_some());
+    kani::cover!(max_ms > 5000);
+}
+
 /// C14: a stale pong (data of an older ping) or forged pong never disarms the tracker nor
 /// changes the RTT.
 #[kani::proof]
